@@ -55,6 +55,17 @@ structure CollCase where
   displs : List Nat
   ins : List (List Int)
 
+/-- container views of the MPIData-based reductions: `v…` = a `std::vector<T>` with a generic functor, `k…` = one
+`FieldVector<int,3>` object reduced entry by entry with a functor on `int` -/
+def isVForm (form : String) : Bool := form == "vrv" || form == "viio" || form == "viip"
+def isKForm (form : String) : Bool := form == "krv" || form == "kiio" || form == "kiip"
+
+/-- the functor of a reduction at cell level (for the `k…` forms: the functor on the entries, cell by cell) -/
+def caseOp (ty fn form : String) : Option (List Int → List Int → List Int) :=
+  if isKForm form then
+    (if ty == "fv3" && (isNamed fn || fn == "gsum" || fn == "gprod" || fn == "left" || fn == "right") then redOp "int" fn else none)
+  else redOp ty fn
+
 def outElems (k : CollCase) (np rank : Nat) (lens : List Nat) : Nat :=
   match k.base with
   | "gather" | "allgather" => k.n * np + k.pad
@@ -93,7 +104,9 @@ def unsupported (k : CollCase) (seq : Bool) (inSize outSize : Nat) : Bool :=
   match k.base, k.form with
   | "red", form =>
     let vec := isIntrinsic k.ty && isNamed k.fn
-    if (redOp k.ty k.fn).isNone then true
+    if (caseOp k.ty k.fn form).isNone then true
+    else if isKForm form then k.n != 1 || inN != 1 || outN != 1 || (form == "krv" && seq)
+    else if isVForm form then !(k.fn == "gmin" || k.fn == "gmax" || k.fn == "left" || k.fn == "right") || inN != k.n || outN != k.n || (form == "vrv" && seq)
     else if form == "sc" then !(k.n == 1 && isNamed k.fn)
     else if form == "ar" then !(isNamed k.fn)
     else if form == "ip" || form == "io" then false
@@ -123,8 +136,10 @@ def specAll (k : CollCase) (root : Nat) (ins outs : List (List Int)) (lens displ
   | "allgather" => Spec.allgather k.tm k.n ins outs
   | "allgatherv" => Spec.allgatherv k.tm ins lens displs outs
   | "red" =>
-    match redOp k.ty k.fn with
-    | some op => Spec.allreduce k.tm.extent k.n op ins outs
+    match caseOp k.ty k.fn k.form with
+    | some op =>
+      if isKForm k.form then Spec.allreduce 1 (k.n * k.tm.extent) op ins outs
+      else Spec.allreduce k.tm.extent k.n op ins outs
     | none => outs
   | _ => outs
 
@@ -135,8 +150,8 @@ def seqOne (k : CollCase) (inp out : List Int) (len displ : Nat) : List Int :=
   | "red", "sc" => Seq.assignElem e (Seq.reduceScalar inp) 0 out 0
   | "red", "ar" | "red", "ip" => Seq.copyLoop e (Seq.reduceInplace inp k.n) 0 out 0 k.n
   | "red", "io" => Seq.allreduceInOut e inp out k.n
-  | "red", "iio" => Seq.iallreduceInOut inp out
-  | "red", "iip" => Seq.iallreduceInplace inp
+  | "red", "iio" | "red", "viio" | "red", "kiio" => Seq.iallreduceInOut inp out
+  | "red", "iip" | "red", "viip" | "red", "kiip" => Seq.iallreduceInplace inp
   | "bcast", "ptr" => Seq.broadcast out k.n 0
   | "bcast", _ => Seq.ibroadcast out 0
   | "gather", "ptr" => Seq.gather e inp out k.n 0
@@ -364,7 +379,10 @@ def usesOf (toks : List String) : List Reg.Use :=
   match toks with
   | "coll" :: _ :: op :: ty :: _ =>
     let parts := splitDots op
-    tyUses ty ++ (if parts.headD "" == "red" && parts.length = 3 then opUses ty (parts.getD 1 "") else [])
+    if parts.headD "" == "red" && parts.length = 3 then
+      -- a FieldVector object viewed as a container of ints: datatype and operation of the entries
+      if isKForm (parts.getD 2 "") then opUses "int" (parts.getD 1 "") else tyUses ty ++ opUses ty (parts.getD 1 "")
+    else tyUses ty
   | "p2p" :: _ :: _ :: ty :: _ => tyUses ty
   | "tmap" :: ty :: _ => tyUses ty
   | "pack" :: _ => (afterColon toks).flatMap fun t => match splitSlash t with | _ :: ty :: _ => tyUses ty | _ => []
